@@ -9,7 +9,7 @@ ASSUMPTIONS = [
     "the verified request is rebuilt from the header comments of aws/aws_sign.h (request line, Host, X-Amz-Date, X-Amz-Content-SHA256, X-Amz-Target, "
     "Content-Length/Content-Type where documented); verifier rules: SignedHeaders sorted/lower-case, contains host and every x-amz-* header of the "
     "request (Content-Length and Content-Type may stay unsigned, as the general SigV4 documentation allows)",
-    "fields over the URI-unreserved alphabet (the interface does no percent-encoding); path starts with '/'; method is an upper-case token; "
+    "fields over the URI-unreserved alphabet (the interface does no percent-encoding); path starts with '/'; method is a token of ASCII letters (either case); "
     "S3 canonical URI = path encoded once without normalisation (S3 rule); presigned payload = UNSIGNED-PAYLOAD",
     "time() is wrapped (ld --wrap=time) and ticks by a generated step on every call; the returned timestamp must be the UTC rendering of one of the "
     "readings (calendar arithmetic re-implemented in the harness; libc gmtime only in the start-up self-test); clock readings lie in [0, 9999-12-15] "
@@ -34,7 +34,7 @@ def build(B):
     shim = B.compile_c(os.path.join(HERE, "shim.c"))
     core = B.compile_cxx(os.path.join(HERE, "core.cpp"))
     return B.link(os.path.join(B.BUILD, "bin", "C19"), [core, shim] + list(lib.values()),
-                  libs=["-lrapidcheck", "-lcrypto"], wraps=["time"])
+                  libs=["-lrapidcheck", "-lcrypto"], wraps=["time", "malloc", "calloc", "realloc", "free"])
 
 MANIFEST = dict(
     engine="rapidcheck",
